@@ -153,6 +153,71 @@ def firm_oracle_grid(ctx):
     ctx.count("firm_oracle_grid_points", n)
 
 
+def firm_scalar_threshold_probe(ctx):
+    """thresholds given as plain floats in the list, NaN included (a NaN threshold makes every case NaN, discounting on or off), through
+    the public firm() against the exact oracle"""
+    CAT, _, _ = S()
+    vals = [0.0, 1.0, 2.0, NAN]
+    cases = [(a_, b_) for a_ in vals for b_ in vals]
+    idx = {"case": range(len(cases))}
+    f = xr.DataArray([c[0] for c in cases], dims=["case"], coords=idx)
+    o = xr.DataArray([c[1] for c in cases], dims=["case"], coords=idx)
+    a = Fraction(1, 4)
+    n = 0
+    for assign in ("lower", "upper"):
+        for d in (0.0, 0.5, None):
+            for ths, wts in (([NAN], [1.0]), ([1.0], [2.0]), ([1.0, NAN], [1.0, 2.0]), ([NAN, 0.0, 2.0], [1.0, 1.0, 3.0]), ([0.0, 2.0], [1.0, 3.0])):
+                st, r = core.call_impl(CAT.firm, f, o, float(a), ths, wts, discount_distance=d, preserve_dims="all", threshold_assignment=assign)
+                case0 = {"categorical_thresholds": ths, "threshold_weights": wts, "risk_parameter": a, "discount_distance": d, "threshold_assignment": assign}
+                if st != "ok":
+                    ctx.violation("firm raises on valid inputs (scalar thresholds, NaN allowed)", case0, "values", r)
+                    continue
+                for k, (fv, ov) in enumerate(cases):
+                    exp = firm_cell_oracle(fv, ov, a, list(zip(ths, wts)), d, assign)
+                    n += 1
+                    for name, e in zip(FVARS, exp):
+                        x = float(r[name].values[k])
+                        if not core.close(x, e):
+                            ctx.violation(f"firm {name} differs from sum_j w_j * penalty_j with scalar thresholds (a NaN threshold gives NaN) (exact oracle)",
+                                          dict(case0, fcst=fv, obs=ov), e, x)
+    ctx.case(("firm_scalar_threshold_probe",), nontrivial=True)
+    ctx.count("firm_scalar_threshold_points", n)
+
+
+def murphy_da_link(ctx):
+    """FIRM = Murphy elementary score with thetas given as a DataArray varying along the data dimension and containing NaN:
+    murphy_score (total / over / under) vs the exact oracle and vs firm with the same per-case thresholds"""
+    CAT, CON, _ = S()
+    vals = [0.0, 1.0, 2.0, NAN]
+    cases = list(itertools.product(vals, repeat=3))
+    idx = {"case": range(len(cases))}
+    f = xr.DataArray([c[0] for c in cases], dims=["case"], coords=idx)
+    o = xr.DataArray([c[1] for c in cases], dims=["case"], coords=idx)
+    t = xr.DataArray([c[2] for c in cases], dims=["case"], coords=idx)
+    n = 0
+    for a in (Fraction(1, 4), Fraction(7, 10)):
+        for d, functional, hub in ((0.0, "quantile", None), (0.5, "huber", 0.5), (5.0, "huber", 5.0)):
+            st, mu = core.call_impl(CON.murphy_score, f, o, t, functional=functional, alpha=float(a), huber_a=hub, decomposition=True, preserve_dims="all")
+            st2, fi = core.call_impl(CAT.firm, f, o, float(a), [t], [1.0], discount_distance=d, preserve_dims="all")
+            if st != "ok" or st2 != "ok":
+                ctx.violation("murphy_score / firm raises with per-case thetas (DataArray with NaN)", {"alpha": a, "functional": functional}, "values", str((mu, fi))[:200])
+                continue
+            for k, (fv, ov, tv) in enumerate(cases):
+                exp = firm_cell_oracle(fv, ov, a, [(tv, 1.0)], d, "lower")
+                case = {"fcst": fv, "obs": ov, "theta (DataArray element)": tv, "alpha": a, "functional": functional, "huber_a": hub}
+                n += 1
+                for name, mvar, e in zip(FVARS, ("total", "overforecast", "underforecast"), exp):
+                    x, y = float(mu[mvar].values[k]), float(fi[name].values[k])
+                    if not same(x, y):
+                        ctx.violation(f"firm {name} with per-case thresholds differs from the Murphy {functional} elementary score at theta = threshold (DataArray thetas)",
+                                      case, x, y)
+                    elif not core.close(x, e):
+                        ctx.violation(f"Murphy {functional} elementary score ({mvar}) with DataArray thetas differs from the stated penalty (NaN theta gives NaN) (exact oracle)",
+                                      case, e, x)
+    ctx.case(("murphy_da_link",), nontrivial=True)
+    ctx.count("murphy_da_link_points", n)
+
+
 def firm_oracle_random(ctx, n):
     CAT, _, _ = S()
     for i in range(n):
@@ -228,6 +293,21 @@ def rms_oracle_grid(ctx):
             if not core.close(x, exp):
                 ctx.violation("risk_matrix_score differs from sum_ij w_ij s_j(f_i, y_i) (exact oracle)",
                               {"fcst": fv, "obs": ov, "prob_thresholds": [0.75, 0.25, 0.5], "weights": [1.0, 2.0, 3.5], "threshold_assignment": assign}, exp, x)
+    # decision points with zero weight still belong to the sum: a missing forecast / observation in a zero-weight severity
+    # category (or at a zero-weight threshold) makes the case NaN, it is not trimmed away
+    dw0 = xr.DataArray([[1.0, 0.0], [2.0, 0.0], [0.0, 0.0]], dims=["prob", "sev"], coords={"prob": [0.25, 0.5, 0.75], "sev": [0, 1]})
+    f2 = xr.DataArray([[0.5, NAN], [0.5, 0.25], [NAN, 0.5], [0.75, 1.0]], dims=["case", "sev"], coords={"case": range(4), "sev": [0, 1]})
+    o2 = xr.DataArray([[0.0, 1.0], [1.0, NAN], [0.0, 0.0], [0.0, 1.0]], dims=["case", "sev"], coords={"case": range(4), "sev": [0, 1]})
+    for assign in ("upper", "lower"):
+        st, r = core.call_impl(EM.risk_matrix_score, f2, o2, dw0, "sev", "prob", threshold_assignment=assign, preserve_dims="all")
+        for k in range(4):
+            exp = rms_case_oracle(f2.values[k], o2.values[k], [0.25, 0.5, 0.75], dw0.transpose("sev", "prob").values, assign)
+            x = float(r.values[k]) if st == "ok" else r
+            n += 1
+            if st != "ok" or not core.close(x, exp):
+                ctx.violation("risk_matrix_score with zero-weight decision points differs from the plain double sum (exact oracle)",
+                              {"fcst": f2.values[k].tolist(), "obs": o2.values[k].tolist(), "decision_weights[prob,sev]": dw0.values.tolist(),
+                               "prob_thresholds": [0.25, 0.5, 0.75], "threshold_assignment": assign}, exp, x)
     ctx.case(("rms_oracle_grid",), nontrivial=True)
     ctx.count("rms_oracle_grid_points", n)
 
@@ -332,6 +412,8 @@ def mwa_oracle_check(ctx, n):
 
 def oracle_checks(ctx, scale=1):
     firm_oracle_grid(ctx)
+    firm_scalar_threshold_probe(ctx)
+    murphy_da_link(ctx)
     rms_oracle_grid(ctx)
     firm_oracle_random(ctx, ctx.n(60 * scale, 600 * scale))
     rms_oracle_random(ctx, ctx.n(60 * scale, 600 * scale))
@@ -432,7 +514,7 @@ def gen_firm_case(ctx):
     ths, wts = [], []
     for _ in range(k):
         if rng.random() < 0.5:
-            ths.append(float(rng.choice(grid)))
+            ths.append(NAN if rng.random() < 0.08 else float(rng.choice(grid)))
         else:
             ts = dict(sizes)
             td = gens.sub_dims(rng, sizes, p_drop=0.5)
@@ -578,13 +660,16 @@ def firm_murphy_sum(ctx):
         odims = gens.sub_dims(rng, sizes, p_drop=0.25)
         obs = gens.rand_da(rng, sizes, dims=odims, values=grid, nan_p=rng.choice([0.0, 0.15]))
         k = rng.randint(1, 3)
-        ths = [float(t) for t in rng.sample(grid, k)]
+        if rng.random() < 0.5:
+            ths = [float(t) for t in rng.sample(grid, k)]
+        else:      # per-case thresholds along the data dims, NaN included: thetas are then passed to murphy_score as a DataArray
+            ths = [gens.rand_da(rng, sizes, dims=gens.sub_dims(rng, sizes, p_drop=0.4, keep_at_least=1), values=grid, nan_p=0.2) for _ in range(k)]
         wts = [float(rng.choice([Fraction(1, 2), 1, 2, 3])) for _ in range(k)]
         alpha = float(rng.choice([Fraction(1, 4), Fraction(1, 2), Fraction(7, 10)]))
         d = rng.choice([0, Fraction(1, 2), 1, 2])
         st, pc = core.call_impl(CAT.firm, fcst, obs, alpha, ths, wts, discount_distance=float(d), preserve_dims="all")
         desc = {"fn": "firm vs murphy_score", "fcst": gens.da_repr(fcst), "obs": gens.da_repr(obs), "risk_parameter": alpha,
-                "categorical_thresholds": ths, "threshold_weights": wts, "discount_distance": d}
+                "categorical_thresholds": [gens.da_repr(t) for t in ths], "threshold_weights": wts, "discount_distance": d}
         ctx.case(desc, st == "ok")
         ctx.count("firm:murphy_link_checked")
         if st != "ok":
@@ -593,8 +678,10 @@ def firm_murphy_sum(ctx):
         for var, mvar in zip(FVARS, ("total", "overforecast", "underforecast")):
             tot = 0
             for t, wt in zip(ths, wts):
-                mu = CON.murphy_score(fcst, obs, [t], functional="quantile" if d == 0 else "huber", alpha=alpha,
-                                      huber_a=float(d) if d else None, decomposition=True, preserve_dims="all")[mvar].sel(theta=t, drop=True)
+                mu = CON.murphy_score(fcst, obs, t if isinstance(t, xr.DataArray) else [t], functional="quantile" if d == 0 else "huber", alpha=alpha,
+                                      huber_a=float(d) if d else None, decomposition=True, preserve_dims="all")[mvar]
+                if not isinstance(t, xr.DataArray):
+                    mu = mu.sel(theta=t, drop=True)
                 tot = tot + wt * mu
             a, b = xr.broadcast(pc[var], tot)
             b = b.transpose(*a.dims)
